@@ -42,11 +42,15 @@ func NewKey(zone string, alg uint8) *Key {
 	case dns.ECDSAP384SHA384:
 		bits = 384
 	}
-	priv, err := k.Generate(bits)
-	if err != nil {
-		panic(err)
+	for {
+		priv, err := k.Generate(bits)
+		if err != nil {
+			panic(err)
+		}
+		if k.KeyTag() != 0 { // the library refuses to sign with key tag 0
+			return &Key{RR: k, Priv: priv}
+		}
 	}
-	return &Key{RR: k, Priv: priv}
 }
 
 // Cut is a delegation published by a parent zone.
